@@ -363,7 +363,7 @@ def case(ctx, rng, idx, state):
 if __name__ == "__main__":
     harness.main(
         PROP, "exploration", case, setup_fn=setup,
-        tiers=dict(quick=dict(cases=800, shards=8, time=120), thorough=dict(cases=6400, shards=16, time=1000)),
+        tiers=dict(quick=dict(cases=800, shards=8, time=900), thorough=dict(cases=6400, shards=16, time=3000)),
         rule="system kind cycled over idx%8 (R, soc, kp, soc, phonon, soc, R, soc), SOC R-set relation cycled "
              "(equal/permuted/nested/overlapping) with variants soc/alpha0/nosoc, nspin 1/2, direct or set_soc_R path; "
              "grid kind alternates every 8 cases between Grid (NKdiv 1-3, NKFFT 1-4 per direction, anisotropic, 3 K-points "
